@@ -1079,14 +1079,47 @@ theorem new_series_id_unused_after_eviction (c : Cfg) (hc : c.seriesLimitFirst =
     ((frun c [0, 1, 2, 3] { lim := lim, nShards := n } (ops ++ [.evictSeq sh m])).genSeries c sh m ts' tags).2 ≠ .id i :=
   new_series_id_unused c hc hp ha lim n (ops ++ [.evictSeq sh m]) sh m ts ts' i tags hold hnew
 
-/-- **an eviction does not even change the next id** — on states where the cover invariant holds and the
-cache entry is one of the metric's postings (`CacheTight`: `GenSeriesID` puts the new id into the cache and
-into the mutable postings together). Partial: `CacheTight` is shown for the states of the example below and
-is preserved by every step by inspection (postings only move towards the disk, a crash empties the cache),
-but its induction over `frun` is not carried out here; the safety statement above does not need it. -/
-theorem eviction_keeps_next_series_id_partial (sh : Shard) (inv : CoverInv sh) (ht : CacheTight sh) (m : Nat) :
-    (sh.evictSeq m).createSeriesID m = sh.createSeriesID m :=
-  evictSeq_same_next inv ht m
+/-- **the cache entry, while it is there, is the largest posting of its metric** — after every history
+(`GenSeriesID` puts the new id into the cache and into the mutable postings together, postings only move
+towards the disk, a crash empties the cache, an eviction only removes) -/
+theorem cache_tight_reachable (c : Cfg) (hc : c.seriesLimitFirst = true) (hp : c.prepareSwapsEmpty = true)
+    (ha : c.indexFlushAborts = true) (lim : Limits) (n : Nat) (ops : List FOp) (sh m v : Nat)
+    (h : ((frun c [0, 1, 2, 3] { lim := lim, nShards := n } ops).shards sh).seqCache m = some v) :
+    (m, v) ∈ ((frun c [0, 1, 2, 3] { lim := lim, nShards := n } ops).shards sh).minv.all ∧
+    ∀ i, (m, i) ∈ ((frun c [0, 1, 2, 3] { lim := lim, nShards := n } ops).shards sh).minv.all → i ≤ v :=
+  ⟨nodeTight_frun hc hp ha ops (nodeTight_init lim n) sh m v h,
+   (cover_reachable c hc hp ha lim n ops sh).cache m v h⟩
+
+/-- **an eviction does not even change the next id**: in the state after any history, the miss branch of
+`createSeriesID` (`max(kv family ∪ mutable ∪ immutable postings) + 1`) computes what the hit branch
+(`cache + 1`) computes — so whether and when the LRU drops an entry is not observable in the ids -/
+theorem eviction_keeps_next_series_id (c : Cfg) (hc : c.seriesLimitFirst = true) (hp : c.prepareSwapsEmpty = true)
+    (ha : c.indexFlushAborts = true) (lim : Limits) (n : Nat) (ops : List FOp) (sh m : Nat) :
+    (((frun c [0, 1, 2, 3] { lim := lim, nShards := n } ops).shards sh).evictSeq m).createSeriesID m =
+      ((frun c [0, 1, 2, 3] { lim := lim, nShards := n } ops).shards sh).createSeriesID m :=
+  evictSeq_same_next (cover_reachable c hc hp ha lim n ops sh) (nodeTight_frun hc hp ha ops (nodeTight_init lim n) sh) m
+
+/-- … and neither the answer of the next `GenSeriesID` of that metric, whatever tag set it is asked for: the
+history with the eviction in front of the call and the history without it answer alike -/
+theorem eviction_invisible_to_next_call (c : Cfg) (hc : c.seriesLimitFirst = true) (hp : c.prepareSwapsEmpty = true)
+    (ha : c.indexFlushAborts = true) (lim : Limits) (n : Nat) (ops : List FOp) (sh m ts : Nat) (tags : List (Nat × Nat)) :
+    ((fstep c [0, 1, 2, 3] (frun c [0, 1, 2, 3] { lim := lim, nShards := n } ops) (.evictSeq sh m)).genSeries c sh m ts tags).2 =
+      ((frun c [0, 1, 2, 3] { lim := lim, nShards := n } ops).genSeries c sh m ts tags).2 := by
+  have hsame := eviction_keeps_next_series_id c hc hp ha lim n ops sh m
+  generalize frun c [0, 1, 2, 3] { lim := lim, nShards := n } ops = nd at *
+  have e : (fstep c [0, 1, 2, 3] nd (.evictSeq sh m)).shards sh = (nd.shards sh).evictSeq m := by
+    simp [fstep, Node.setShard]
+  have hlim : (fstep c [0, 1, 2, 3] nd (.evictSeq sh m)).lim = nd.lim := rfl
+  have hser : ((nd.shards sh).evictSeq m).series = (nd.shards sh).series := rfl
+  unfold Node.genSeries
+  simp only [e, hlim, hser, hsame]
+  cases (nd.shards sh).series.lookup m ts with
+  | some i => rfl
+  | none =>
+    simp only []
+    split
+    · rfl
+    · split <;> rfl
 
 /-- non-vacuity: two series, PrepareFlush, a faulted flush (postings committed, dictionary still frozen), a
 third series, eviction of the metric's entry: the miss branch reads kv family ∪ mutable and answers 3; the
@@ -1101,6 +1134,31 @@ example :
     (nd'.shards 0).minv.disk.length = 2 ∧ (nd'.shards 0).minv.cur.length = 1 ∧
     (nd'.shards 0).createSeriesID 0 = 3 ∧ (nd'.genSeries c 0 0 4 []).2 = .id 3 ∧
     (nd'.shards 0).series.lookup 0 3 = some 2 := by decide
+
+/-- **the miss branch reads all three tiers** (regenerated from `invertedIndex.getSeriesIDs` and
+`findSeriesIDsByKeyFromMem`): the memory tables — `ii.mutable`, then `ii.immutable` — and then the kv family's
+snapshot; `Shard.metricSeries`, which the model's `createSeriesID` takes the maximum of, is exactly the union of
+the three -/
+theorem posting_tiers_tie :
+    C09.invertedGetSeriesIDsCalls.filter (fun c => c = "ii.findSeriesIDsByKeyFromMem" ∨ c = "family.GetSnapshot" ∨ c = "snapshot.Load") =
+      ["ii.findSeriesIDsByKeyFromMem", "family.GetSnapshot", "snapshot.Load"] ∧
+    C09.invertedFindFromMemTiers = ["ii.mutable", "ii.immutable"] ∧
+    C09.invertedFindFromMemCalls.filter (fun c => c = "findSeriesIDs") = ["findSeriesIDs", "findSeriesIDs"] ∧
+    (∀ (sh : Shard) (m i : Nat), i ∈ sh.metricSeries m ↔
+      ((m, i) ∈ sh.minv.cur ∨ (m, i) ∈ sh.minv.frzList ∨ (m, i) ∈ sh.minv.disk)) := by
+  refine ⟨by decide, by decide, by decide, ?_⟩
+  intro sh m i
+  rw [← Layers.mem_all]
+  unfold Shard.metricSeries
+  constructor
+  · intro h
+    obtain ⟨⟨m', i'⟩, hf, rfl⟩ := List.mem_map.1 h
+    obtain ⟨hin, hm'⟩ := List.mem_filter.1 hf
+    have : m' = m := by simpa using hm'
+    subst this
+    exact hin
+  · intro h
+    exact List.mem_map.2 ⟨(m, i), List.mem_filter.2 ⟨h, by simp⟩, rfl⟩
 
 namespace Neg
 
